@@ -12,7 +12,16 @@ R2 order in `ScheduleStep._schedule` (dominance on the CFG): awaited `scheduler.
    `put(JobToken(value=job))`; overrides of `_set_job_directories` run the base implementation on every path.
 R3 `_set_job_directories` issues `mkdir(parents=True, exist_ok=True)` for every allocated location x
    {input, output, tmp} after the names were chosen, awaits all of them before resolving and before returning, and a
-   directory that resolves to None raises before it is stored on the job.  `awaited` follows the coroutine through
+   directory that resolves to None raises before it is stored on the job: the stored local (or the local it plainly
+   aliases) comes from `resolve()` and, not rebound in between, is covered by a guard whose None outcome reaches neither
+   a return nor the store (exception handlers included) -- a test dominating the store, spelled any way (`is None`,
+   `None is x`, `not x`, a disjunction / negated conjunction of such tests), an (awaited) call statement dominating the
+   store that hands the local to a program function raising on every path when that parameter is None (one level), or
+   such a guard on the loop variable of a `for` over a literal table (display of values / equally long rows, dict
+   display `.items()` / `.values()`) that lists the local, passed in every iteration, the store being reachable only
+   after the loop is exhausted.  Not decided (reported as unguarded): a helper returning a bool that the caller tests,
+   a helper returning the checked value (`x = require(x)`), `assert`, a table built other than by one display.
+   `awaited` follows the coroutine through
    create_task, a comprehension / display, append / extend / assignment to a local and plain aliases of it up to an
    awaited `asyncio.gather`; the local must not be rebound, cleared or truncated between creation and that await.
    Not decided: completion through `asyncio.wait`, `for t in L: await t`, a TaskGroup, or a helper that does the gather
